@@ -601,7 +601,9 @@ R('flatten', 1, [lambda e, w: e.flatten(w.s[0])], 'transform.reshape',
 R('unflatten', 1,
   [lambda e, w: e.unflatten(e.values(w.s[0], 'c'), 2),
    lambda e, w: e.unflatten(w.s[0], 'c', 3, missing='M')],
-  'transform.reshape', stream=('filter', 0))
+  'transform.reshape', stream=('contract', 0, 3))
+# (contract: up to 3 input rows make one output row - filter-like for the
+# generic rules, with a bound of its own in C02)
 
 # -- transform.selects
 R('select', 1, [lambda e, w: e.select(w.s[0], f_pred_a),
@@ -1277,9 +1279,7 @@ R('presorted-setops', 2,
    lambda e, w: e.intersection(w.s[0], w.s[1], presorted=True),
    lambda e, w: e.diff(w.s[0], w.s[1], presorted=True)[0],
    lambda e, w: e.diff(w.s[0], w.s[1], presorted=True)[1],
-   lambda e, w: e.complement(w.s[0], w.s[1], presorted=True, strict=True),
-   lambda e, w: e.recordcomplement(w.s[0], w.s[1], presorted=True),
-   lambda e, w: e.recorddiff(w.s[0], w.s[1], presorted=True)[1]],
+   lambda e, w: e.complement(w.s[0], w.s[1], presorted=True, strict=True)],
   'transform.setops', stream=FIL0, rect=True, profile='sorted')
 R('presorted-joins', 2,
   [lambda e, w: e.join(w.s[0], w.s[1], key='a', presorted=True),
